@@ -239,9 +239,11 @@ def condom(f):
         """
         The Z3 condom intercepts Z3Exceptions and throws a ClaripyZ3Error instead.
         """
+        # not inside the try: if entering is interrupted (Ctrl-C while waiting for the guard's lock) the call was never
+        # counted, and the _exit_z3() of the finally block would un-count a call of another thread that is still in Z3
+        _enter_z3()
         handler_installed = False
         try:
-            _enter_z3()
             handler_installed = install_sigint_handler()
             return f(*args, **kwargs)
         except z3.Z3Exception as ze:
